@@ -44,12 +44,14 @@ struct Executor {
 fn spawn_executor() -> Executor {
     let (tx, jrx) = channel::<Job>();
     let (rtx, rx) = channel::<Reply>();
+    let slot = crate::rec::worker_slot();
     std::thread::Builder::new()
         .name("party".into())
         .stack_size(8 << 20)
         .spawn(move || {
             // std seeds this thread's hash-map keys from OS entropy on first use: do it now, with the seam off
             let _ = std::collections::hash_map::RandomState::new();
+            crate::rec::set_worker_slot(slot);
             while let Ok(job) = jrx.recv() {
                 seams::set_clock_ns(job.clock);
                 seams::set_work_tick_ns(job.tick);
